@@ -322,7 +322,7 @@ def cases(tier, seed):
     for kind in KINDS:
         for noisy in (False, True):
             if tier == "quick":
-                d = 4 if noisy else 5
+                d = 3 if noisy else 5
             else:
                 d = 5 if noisy else 6
             # sharded by the first action (each shard explores the sub-tree below it to depth d-1)
